@@ -83,6 +83,12 @@ func (tp *TaskPool) Stop() {
 //
 //go:norace
 func New(maxConcurrent int, chQqueueSize int, v ...interface{}) *TaskPool {
+	if maxConcurrent <= 0 {
+		maxConcurrent = runtime.NumCPU() * 1024
+	}
+	if chQqueueSize <= 0 {
+		chQqueueSize = 1024
+	}
 	tp := &TaskPool{
 		maxConcurrent: int64(maxConcurrent - 1),
 		chQqueue:      make(chan func(), chQqueueSize),
